@@ -110,6 +110,33 @@ CHECK_DEADLOCK FALSE
 """
 
 
+WRAPPER_CFG = """CONSTANTS
+  BucketNames = {"A", "B", "C"}
+  DropHandleOnDelete = %s
+  LookupAsksStorage = %s
+SPECIFICATION Spec
+INVARIANT CacheSound
+PROPERTY LookupOK
+PROPERTY CreateOK
+PROPERTY FailedCallsChangeNothing
+CHECK_DEADLOCK FALSE
+"""
+
+
+def wrapper_design(rep):
+    """the Datastore wrapper's handle cache in front of the storage's bucket table (C05 on the design)"""
+    res = tlc.model_check("AwDatastoreDesign", WRAPPER_CFG % ("TRUE", "TRUE"), tag="mc_wrapper")
+    rep.add_model(res, "AwDatastoreDesign (bucket_instances cache in front of the storage's bucket table; create / delete / lookup / update with the statements in the code's order, failing calls included): "
+                       "the cache never names a missing bucket, lookup raises KeyError exactly for missing buckets, failed calls change nothing; 3 bucket ids, all histories")
+    neg = {}
+    for name, a, b in (("delete_bucket keeps the cached handle", "FALSE", "TRUE"), ("a cache miss does not consult the storage", "TRUE", "FALSE")):
+        r = tlc.model_check("AwDatastoreDesign", WRAPPER_CFG % (a, b), tag="mc_wrapper_neg", expect_ok=False)
+        if r["ok"]:
+            raise tlc.TLCFailure("negative control '%s' was not refuted by TLC" % name)
+        neg["wrapper: " + name] = "refuted after %d states" % r["states"]
+    rep.notes["design_layer_negative_controls"] = neg
+
+
 def design_phase(rep, tier, prop):
     """SQL-level design layer of the sqlite backend refines AwStore; the pinned tree's statements are refuted."""
     q = tier == "quick"
@@ -269,6 +296,8 @@ def run(prop, tier, seed, replay=None):
         rep.add_model(res, "AwStore event instance: 2 buckets, 3 ids, ticks {0,1}, durations {0,1}, <=2 events per bucket, all ops incl. bulk upsert and out-of-contract ids")
         if prop in ("C02", "C04"):
             design_phase(rep, tier, prop)
+        if prop == "C05":
+            wrapper_design(rep)
     # ---- 2. behaviours: TLC simulation of AwStoreGen + random abstract histories
     behaviours = []
     if replay is not None:
